@@ -58,6 +58,10 @@ def scenario(ctx, script_key, stop_api, with_next, max_preempt, later=False):
         sj_mod.Machine = TMachine
         JC = simsched.traced(jc_mod.JobControl, ['_active_agent'])
         jc = JC()
+        import web.web_app as web_app_mod
+        web_app = web_app_mod.WebApp.__new__(web_app_mod.WebApp)      # no manifest needed for stop-all
+        web_app._scripts = {}
+        web_app._jobs = jc
         job = ScriptJob.from_string(SCRIPTS[script_key])
         aim_next = stop_api == 'stop_next'
         nxt = ScriptJob.from_string(NEXT_FOREVER if aim_next else NEXT_JOB) if with_next else None
@@ -81,7 +85,7 @@ def scenario(ctx, script_key, stop_api, with_next, max_preempt, later=False):
         net.request = request
 
         def requester():
-            if stop_api == 'stop_background':
+            if stop_api in ('stop_background', 'stop_all_bg'):
                 jc.spawn_job(job, 'main')
             else:
                 jc.add_job(job, 'main')
@@ -118,11 +122,8 @@ def scenario(ctx, script_key, stop_api, with_next, max_preempt, later=False):
                 marks['result'] = jc.stop_current()
             elif stop_api == 'stop_background':
                 marks['result'] = jc.stop_background()
-            else:                                   # WebApp.stop_all
-                jc.clear_queue()
-                r1 = jc.stop_current()
-                r2 = jc.stop_background()
-                marks['result'] = r1 and r2
+            elif stop_api in ('stop_all', 'stop_all_bg'):       # the web server's stop-all, on this controller
+                marks['result'] = web_app.stop_all()
             marks['returned'] = len(net.trace)
             marks['t_stop'] = s.now
             if lat is not None:
@@ -241,10 +242,10 @@ def run(tier, seed):
     q = tier == 'quick'
     items = []
     for script in SCRIPTS:
-        for api in ('stop_job', 'stop_current', 'stop_all', 'stop_background'):
-            for nxt in ((False, True) if api != 'stop_background' else (False,)):
+        for api in ('stop_job', 'stop_current', 'stop_all', 'stop_background', 'stop_all_bg'):
+            for nxt in ((False, True) if api not in ('stop_background', 'stop_all_bg') else (False,)):
                 items.append({'script': script, 'api': api, 'next': nxt, 'later': False, 'preempt': 2 if q else 3,
-                              'max_paths': 2500 if q else 150000, 'budget_s': 30 if q else 600})
+                              'max_paths': 2500 if q else 150000, 'budget_s': 24 if q else 600})
         if script in ('straight', 'timed'):
             items.insert(0, {'script': script, 'api': 'stop_next', 'next': True, 'later': False, 'preempt': 2 if q else 3,
                              'max_paths': 3000 if q else 150000, 'budget_s': 75 if q else 600})
